@@ -10,7 +10,7 @@ From stdpp Require Import gmap.
 From Coq Require Import ZArith List.
 From V Require Import Base.Res Sched.LedgerModel Sched.StmtModel Sched.GangModel Sched.CycleModel
                       Sched.LedgerInvP Sched.LedgerCodec Sched.CycleCodec
-                      Sched.LedgerLemmasSess Sched.QueueLemmasBase Sched.QueueLemmasReach Sched.QueueLemmas Sched.QueueLemmasHeld Sched.QueueLemmasEx
+                      Sched.LedgerLemmasSess Sched.QueueLemmasBase Sched.QueueLemmasReach Sched.QueueLemmas Sched.QueueLemmasHeld Sched.QueueLemmasEx Sched.QueueLemmasBuild
                       C03.CapacityModel C03.CapacityLemmas C03.ReclaimLaw C03.AliasModel C03.ReclaimModel.
 From V Require C03.EnqueueLaw.
 Import ListNotations.
@@ -47,8 +47,7 @@ Print Assumptions C03_events_balance_run.
 
 
 (* A.3 (main)  for every world, every list of oracle choices (no hypothesis on the verdicts: a
-   refused or malformed choice places nothing), after the run -- hence after every step, see the
-   next theorem -- for every allocate callback [e] of this cycle, its task t, t's queue q with a
+   refused or malformed choice places nothing), after the run -- hence after every step: a prefix of a choice list is a choice list -- for every allocate callback [e] of this cycle, its task t, t's queue q with a
    queue plugin: q is Open unless t is best-effort, and in every dimension t requests the queue's
    share is within the limit *)
 Theorem C03_queue_cap_invariant : forall eps (w : world) (ops : list cop),
@@ -107,20 +106,6 @@ Print Assumptions C03_cover_no_holding.
 
 
 
-(* with limit <= capability (C12: deserved <= max(guarantee, realCapability), realCapability <=
-   capability; the admission webhook enforces guarantee <= deserved <= capability): never above
-   the capability *)
-Theorem C03_never_above_capability : forall eps (w : world) (ops : list cop) (capability : positive -> res),
-  world_ok w ->
-  (forall q qa d, w_queues w !! q = Some qa -> amt (q_limit qa) d <= amt (capability q) d) ->
-  let s' := w_sess (CycleModel.run eps w ops) in
-  forall evs, hlog s' = evs ++ hlog (w_sess w) ->
-  forall e t q qa,
-    e ∈ evs -> he_alloc e = true -> heap s' !! he_task e = Some t -> queue_of s' t = Some q ->
-    w_queues w !! q = Some qa -> q_has_plugin qa = true ->
-    forall d, requested (t_req t) d -> amt (share_of s' q) d <= amt (capability q) d.
-Proof. exact queue_cap_under_capability. Qed.
-Print Assumptions C03_never_above_capability.
 
 
 Theorem C03_world_okb_sound : forall w, world_okb w = true -> world_ok w.
@@ -430,3 +415,61 @@ Theorem C03_add_queue_fixed_spec : forall (t : table) (q p : positive),
   table_wf t'.
 Proof. exact add_queue_fixed_spec. Qed.
 Print Assumptions C03_add_queue_fixed_spec.
+
+(* ================= second audit round ================= *)
+
+(* N1 / N2: the hypotheses of the main theorem hold of every session built from a cluster
+   description that passes a decidable guard (distinct task ids, no Pipelined task at session open,
+   the executable invariants); law 121 evaluates the guard on every generated cycle case.
+   cover_build: the ledger `build` sets up IS the sum over the pods in an allocated status. *)
+Theorem C03_cover_build : forall eps ns js tsp,
+  base.NoDup (map ts_id tsp) -> Forall (fun t => ts_status t <> Pipelined) tsp ->
+  forall q d, phi (build eps ns js tsp) q d = 0.
+Proof. exact cover_build. Qed.
+Print Assumptions C03_cover_build.
+
+Theorem C03_built_sessions_satisfy_hypotheses : forall c : cycle_case,
+  hyp_guardb c = true -> world_ok_held (world_of c).
+Proof. exact built_sessions_satisfy_hypotheses. Qed.
+Print Assumptions C03_built_sessions_satisfy_hypotheses.
+
+(* the guard is needed: `build` (like proportion.go:146 / capacity.go:1115) sums api.AllocatedStatus
+   only; a task Pipelined at session open holds quota the ledger does not know about *)
+Theorem C03_build_pipelined_not_covered :
+  hyp_guardb ex_case_pip = false /\ world_okb (world_of ex_case_pip) = true /\
+  phi (w_sess (world_of ex_case_pip)) 1 DCpu = -9600 /\
+  held (w_sess (CycleModel.run 2 (world_of ex_case_pip) [CAttempt 1 [(2%positive, 1%positive)]])) 1 DCpu = 19200.
+Proof. exact build_pipelined_not_covered. Qed.
+Print Assumptions C03_build_pipelined_not_covered.
+
+(* first-audit W9, restated on the placed pods and only where the capability constrains *)
+Theorem C03_placed_pods_within_capability : forall eps (w : world) (ops : list cop)
+    (capability : positive -> res) (limits : positive -> dim -> Prop),
+  world_ok_held w ->
+  (forall q qa d, w_queues w !! q = Some qa -> limits q d -> amt (q_limit qa) d <= amt (capability q) d) ->
+  let s' := w_sess (CycleModel.run eps w ops) in
+  forall evs, hlog s' = evs ++ hlog (w_sess w) ->
+  forall e t q qa,
+    e ∈ evs -> he_alloc e = true -> heap s' !! he_task e = Some t -> queue_of s' t = Some q ->
+    w_queues w !! q = Some qa -> q_has_plugin qa = true ->
+    forall d, requested (t_req t) d -> limits q d -> held s' q d <= amt (capability q) d.
+Proof. exact placed_pods_within_capability. Qed.
+Print Assumptions C03_placed_pods_within_capability.
+
+(* N11: a session that OPENS with a Running pod (hypotheses by the theorem above), a second pod
+   placed on top of it, and the main theorem instantiated on that placement *)
+Example C03_ex_run_ok_held : world_ok_held (world_of (ex_case_run 32000)).
+Proof. exact ex_run_ok_held. Qed.
+Example C03_ex_second_pod_placed :
+  let w := world_of (ex_case_run 32000) in
+  let s' := w_sess (CycleModel.run 2 w ops5) in
+  held (w_sess w) 1 DCpu = 9600 /\ verdicts 2 w ops5 = [VOk] /\
+  hlog s' = [mkHev true 2 Allocated (Some 1%positive)] /\ held s' 1 DCpu = 19200.
+Proof. exact ex_second_pod_placed. Qed.
+Example C03_ex_second_pod_within_limit :
+  held (w_sess (CycleModel.run 2 (world_of (ex_case_run 32000)) ops5)) 1 DCpu <= 32000.
+Proof. exact ex_second_pod_within_limit. Qed.
+Print Assumptions C03_ex_second_pod_within_limit.
+Example C03_ex_second_pod_refused :
+  verdicts 2 (world_of (ex_case_run 16000)) ops5 = [VQueueRefuses 2].
+Proof. exact ex_second_pod_refused. Qed.
